@@ -147,7 +147,9 @@ brk("c15-state-conditional", "C15", "C15.MIRROR", CV, "            self.state = 
 brk("c15-regress-d14", "C15", "C15.MIRROR", CL, "            if msg.name:\n                device = self.get_device(msg.device)\n            else:\n                self.devices.pop(msg.device, None)", "            device = self.get_device(msg.device)")
 brk("c15-kind-binding", "C15", "C15.KINDS", CV, "class LightVector(Vector):\n    def_message_class = message.DefLightVector\n    set_message_class = message.SetLightVector", "class LightVector(Vector):\n    def_message_class = message.DefLightVector\n    set_message_class = message.SetTextVector")
 brk("c16-filter-element", "C16", "C16.FILTER", CL, "                event.element.name if event.element else None,\n            )\n            and isinstance(event, self.event_type)", "                event.element.name if event.element else None,\n            )\n            or isinstance(event, self.event_type)")
-brk("c16-contain-outside", "C16", "C16.CONTAIN", CL, "        for callback in self.callbacks:\n            if callback.accepts_event(event):\n                try:\n                    if asyncio.iscoroutinefunction(callback.callback):\n                        asyncio.get_running_loop().create_task(callback.callback(event))\n                    else:\n                        callback.callback(event)\n                except:\n                    logger.exception(\"Error in event handler\")", "        try:\n            for callback in self.callbacks:\n                if callback.accepts_event(event):\n                    if asyncio.iscoroutinefunction(callback.callback):\n                        asyncio.get_running_loop().create_task(callback.callback(event))\n                    else:\n                        callback.callback(event)\n        except:\n            logger.exception(\"Error in event handler\")")
+brk("c16-contain-outside", "C16", "C16.CONTAIN", CL, "            if callback.accepts_event(event):\n                try:\n                    if asyncio.iscoroutinefunction(callback.callback):\n                        asyncio.get_running_loop().create_task(callback.callback(event))\n                    else:\n                        callback.callback(event)\n                except:\n                    logger.exception(\"Error in event handler\")", "            if callback.accepts_event(event):\n                if asyncio.iscoroutinefunction(callback.callback):\n                    asyncio.get_running_loop().create_task(callback.callback(event))\n                else:\n                    callback.callback(event)")
+brk("c16-live-walk", "C16", "C16.DURING", CL, "        for callback in list(self.callbacks):\n            if callback not in self.callbacks:\n                continue\n", "        for callback in self.callbacks:\n")
+brk("c16-snapshot-no-recheck", "C16", "C16.DURING", CL, "            if callback not in self.callbacks:\n                continue\n", "")
 brk("c16-event-always", "C16", "C16.IFF", CE, "            if self._value != old_value:\n                event = ValueUpdate(self, old_value, self._value)", "            if True:\n                event = ValueUpdate(self, old_value, self._value)")
 brk("c16-old-after", "C16", "C16.IFF", CE, "            old_value = self.value\n            self.set_value_from_message(msg)", "            self.set_value_from_message(msg)\n            old_value = self.value")
 brk("c16-rm-first-only", "C16", "C16.RM", CL, "        for cb in to_rm:\n            self.callbacks.remove(cb)", "        for cb in to_rm[:1]:\n            self.callbacks.remove(cb)")
@@ -168,4 +170,4 @@ brk("c19-regress-d19", "C19", "C19.LOCK", STTY, "        async with self.sender_
 keep("c19-chunked", ["C19"], CTCP, "            self.writer.write(data)\n            await self.writer.drain()", "            for i in range(0, len(data), 512):\n                self.writer.write(data[i:i + 512])\n                await self.writer.drain()")
 brk("c08-config-control", "C08", "C08.CONFIG", CL, "            self.process_message, for_blobs=True\n        )", "            self.process_message\n        )")
 brk("c08-regress-null", "C08", "C08.NULL", VAL, 'return cls(base64.b64decode(binary_base64 or ""), format)', "return cls(base64.b64decode(binary_base64), format)")
-brk("c08-urlsafe", "C08", "C08.CODEC", VAL, "return base64.b64encode(self.binary).decode(\"latin1\")", "return base64.urlsafe_b64encode(self.binary).decode(\"latin1\")")
+brk("c08-urlsafe", "C08", "C08.VALUE", VAL, "return base64.b64encode(self.binary).decode(\"latin1\")", "return base64.urlsafe_b64encode(self.binary).decode(\"latin1\")")
